@@ -27,7 +27,7 @@ PROPS = {
     "C12": K("c12", extra=["-Z", "stubbing"], bounds="all 256 vectors, all u8 bound pairs of 15 range forms, all canonical handler addresses, 3-step option-setter programs (unwind 4)",
              stubs=["S-addr: VirtAddr::new -> new_unsafe in c12_load_hands_cpu_own_address only (CBMC object addresses are never canonical)"],
              trusted_base=["rustc->Kani->CBMC", "CaDiCaL", "overlay O1-O4", "ISA model (mov r,cs; lidt)"]),
-    "C13": K("c13", extra=["-Z", "stubbing"], bounds="all 256 vectors x all (lo,hi) pairs; hardware entry/return of extern \"x86-interrupt\" functions is outside (LLVM back end)",
+    "C13": K("c13", extra=["-Z", "stubbing"], expected_panics=["General handler returned on"], jobs=12, bounds="all 256 vectors x all (lo,hi) pairs; hardware entry/return of extern \"x86-interrupt\" functions is outside (LLVM back end)",
              stubs=["S-addr: VirtAddr::new -> new_unsafe (function addresses in CBMC are not canonical)"]),
     "C19": K("c19", pre=_c19_pre, post_evidence=_c19_post,
              bounds="finite: every public constant (coverage-gated against the tree) + codecs over all u8/u16/u64 inputs",
@@ -35,6 +35,9 @@ PROPS = {
     "C11": K("c11", bounds="all canonical addresses / PCIDs / kinds; broadcast: the first 3 requests of every 4KiB and 2MiB range x all processor maxima x all option combinations (unwind 5), later requests by induction on the (start,end) loop state; mapper-returned tokens are checked in C01's harnesses",
              assumptions=["a broadcast request with count c covers max(c,1) pages (the crate's own model of INVLPGB)", "CR3 bits 52-63 are zero (reserved / read as zero)"],
              trusted_base=["rustc->Kani->CBMC", "CaDiCaL", "overlay O1-O4", "ISA model (invlpg, invpcid, invlpgb, tlbsync, mov cr3)"]),
+    "C20": K("c20", extra=["-Z", "stubbing"], bounds="no loop; all canonical table addresses x all CR3 x all slot contents; all 512 recursive indices x all pages of the three sizes",
+             stubs=["S-addr: VirtAddr::new returns a harness-chosen symbolic canonical address for the table reference (called exactly once, asserted)"],
+             trusted_base=["rustc->Kani->CBMC", "CaDiCaL", "overlay O1-O4", "ISA model (mov r,cr3)"]),
     "C14": K("c14", bounds="one append from every valid table state, MAX in {1,2,3,8,9} (unwind MAX+2); all descriptors, all u16 selectors"),
     "C15": K("c15", bounds="no loop; all 2^64 TSS addresses, all descriptor bit patterns"),
     "C16": K("c16", bounds="no loop (PAT: unwind 9); all prior register contents x all argument values; ISA model of ~35 instructions is the trusted base",
